@@ -162,7 +162,10 @@ func (e *c19Env) seed() {
 	c19Must(en.VCreate(c19Idx1, distance.Cosine, 8, 50, distance.Float32, "english", nil, nil, nil))
 	for i, id := range []string{"a", "b", "c", "d"} {
 		v := []float32{float32(i) + 0.1, 0.2, 0.3, float32(i) * 0.5}
-		c19Must(en.VAdd(c19Idx0, id, v, map[string]any{"tag": "x", "n": float64(i), "content": "alpha beta " + id}))
+		// metadata of every JSON kind a client may have stored: scalars, a list, a nested
+		// object and a null (requests that rewrite the metadata of these nodes meet them)
+		c19Must(en.VAdd(c19Idx0, id, v, map[string]any{"tag": "x", "n": float64(i), "content": "alpha beta " + id,
+			"labels": []any{"l1", float64(i)}, "author": map[string]any{"name": "n" + id, "tags": []any{"t"}}, "gone": nil}))
 	}
 	c19Must(en.VAdd(c19Idx0, "r0", []float32{0.4, 0.4, 0.4, 0.4}, map[string]any{"type": "reflection", "status": "unresolved", "content": "Conflict detected"}))
 	for i, id := range []string{"a", "b"} {
